@@ -168,10 +168,17 @@ eval(struct expr *expr)
 				else
 					expr->u.constant.u = l->u.constant.u != 0;
 			} else if (l->type->prop & PROPINT && t->prop & PROPFLOAT) {
-				if (l->type->u.basic.issigned)
+				/* round once, to the destination type */
+				if (t->size == 4) {
+					if (l->type->u.basic.issigned)
+						expr->u.constant.f = (float)l->u.constant.i;
+					else
+						expr->u.constant.f = (float)l->u.constant.u;
+				} else if (l->type->u.basic.issigned) {
 					expr->u.constant.f = l->u.constant.i;
-				else
+				} else {
 					expr->u.constant.f = l->u.constant.u;
+				}
 			} else if (l->type->prop & PROPFLOAT && t->prop & PROPINT) {
 				if (t->u.basic.issigned) {
 					if (l->u.constant.f < -0x1p63 || l->u.constant.f >= 0x1p63)
